@@ -411,6 +411,7 @@ func (x *vc) applyContract(fr *frame, st *state, fc *funcContract, callee *ssa.F
 		}
 	}
 	x.pendingBinds = nil
+	aliasRenamed(callee, env) // a renamed parameter or captured variable keeps the name the contract was written with
 	for k, r := range fc.requires {
 		if r.tag == "lemma" {
 			continue // derived inside the callee's own verification
